@@ -8,7 +8,7 @@ import rustdebug
 import vlib
 from props import c09, c12
 
-GEN = ["GenResolve"]
+GEN = ["GenResolve", "GenSrcDigest"]
 TRUSTED = [
     "Coq 8.16.1 kernel (coqc); vm_compute only for the refutation witness and the non-vacuity examples; no axioms",
     "translator tools/gens/gen_resolve.py (flag: does the S::Assignment arm of statement_dependencies include the target)",
